@@ -48,12 +48,7 @@ Definition completeness_rows (cells : list (Z * option Z)) : list crow :=
 (* ------------------------------------------------------------------ comparison-vector distribution
    select sum_gam, count( * ), cast(count( * ) as float)/(select count( * ) from predict), gammas
    from predict group by gammas *)
-Fixpoint lex_leb (a b : list Z) : bool :=
-  match a, b with
-  | [], _ => true
-  | _ :: _, [] => false
-  | x :: a', y :: b' => if x <? y then true else if y <? x then false else lex_leb a' b'
-  end.
+(* key order: GroupBy.lex_leb (lexicographic on the gamma tuple) *)
 Definition gam_term (g : Z) : Z := if g =? -1 then 0 else if g =? 0 then -1 else g.
 Record vrow := { v_gammas : list Z; sum_gam : Z; count_rows_in_comparison_vector_group : Z;
                  proportion_of_comparisons : Q }.
